@@ -709,6 +709,7 @@ func c03CompareAtReturns(c *Ctx, rule string, f *ssa.Function, env *feEnv, ops [
 
 func c03Special(c *Ctx) {
 	c03ZForAffine(c)
+	c03OnCurveZero(c)
 	for _, name := range []string{"sm2P256PointAdd", "sm2P256PointSub"} {
 		f := c.Fn("sm2", name)
 		if f == nil {
@@ -1287,4 +1288,45 @@ func c03ZForAffine(c *Ctx) {
 		}
 	})
 	c.Check(!reach1, rule, fname(f), "(0,0) is the point at infinity (z = 0)", "", "with x = y = 0 the function still delivers z = 1", pos1)
+}
+
+// c03OnCurveZero: membership testing accepts exactly the pairs in [0,p) that satisfy the equation — a coordinate equal
+// to ZERO is in range (the points (0, ±sqrt(b)) exist on this curve). With x = 0 (x.Sign() == 0), and likewise with
+// y = 0, no constant-false return may be reachable: range checks must use Sign() < 0, not <= 0.
+func c03OnCurveZero(c *Ctx) {
+	rule := "P-C03-formulas"
+	f := c.Fn("sm2", "(sm2P256Curve).IsOnCurve")
+	if f == nil {
+		f = c.Fn("sm2", "sm2P256Curve.IsOnCurve")
+	}
+	if f == nil {
+		return
+	}
+	names := paramNames(f, "curve", "X", "Y")
+	ci := newCondIndex(f, names)
+	for _, who := range []string{"X", "Y"} {
+		bad := token.NoPos
+		// a zero coordinate also compares below the (positive) modulus: who.Cmp(m) is -1; and the other coordinate is in
+		// range as well (sign 0 or 1, below the modulus)
+		other := map[string]string{"X": "Y", "Y": "X"}[who]
+		var below []assumption
+		for _, v := range []string{"X", "Y"} {
+			below = append(below, assumption{`re:ge\(cmp\(` + v + `,.+\),0x0\)`, false}, assumption{`re:gt\(cmp\(` + v + `,.+\),0x0\)`, false}, assumption{`re:eq\(cmp\(` + v + `,.+\),0x0\)`, false})
+		}
+		walk := func() {
+			for b := range reach([]*ssa.BasicBlock{f.Blocks[0]}, deadEdges(f)) {
+				if ret, ok := b.Instrs[len(b.Instrs)-1].(*ssa.Return); ok && len(ret.Results) == 1 {
+					if v, isC := constBool(ret.Results[0]); isC && !v {
+						bad = ret.Pos()
+					}
+				}
+			}
+		}
+		ci.withAssumptions(below, func() {
+			ci.withInterval("sign("+other+")", 0, 1, func() {
+				ci.withInterval("sign("+who+")", 0, 0, walk)
+			})
+		})
+		c.Check(bad == token.NoPos, rule, fname(f), "a zero "+who+" coordinate is not rejected out of hand", "", "with "+who+" = 0 a constant `return false` is reachable before the curve equation is evaluated: the curve points with a zero coordinate, e.g. (0, ±sqrt(b)), are reported as off the curve", bad)
+	}
 }
